@@ -37,7 +37,7 @@ def run(ctx):
     tasks = [{"name": "MCC14enum", "T": 2, "depth": 1, "expr": ENUM_EXPR_QUICK if quick else ENUM_EXPR_THOROUGH,
               "family": "each of the 4 leaves absent or one of %s, bottom-up" % ("3 matrices" if quick else "all 81 matrices over {U,1,3}")}]
     tasks += base.plan_binding(ctx, "C14", PLAN, PARALLEL_PLAN, only_fits=True, builder_runs=14 if quick else 150,
-                               allow_keepu=False)
+                               allow_keepu=False, rewrite_p=0.35)
     jobs = []
     for t, recs in base.run_tasks(ctx, tasks):
         if "expr" in t:
